@@ -423,9 +423,11 @@ def main():
                 bad += 1
         sys.exit(1 if bad else 0)
 
-    proof_stage(ctx)
+    # translators first: what they regenerate from /repo's current source (Generated/*.lean) is compiled and checked by the
+    # proof stage of this very run
     for t in ctx.cfg.get('translators', []):
         ctx.translators.append(P.run_translator(ctx, t))
+    proof_stage(ctx)
     ctx.say(f'[{a.prop}] proof stage: {ctx.proof["discharged"]}/{ctx.proof["obligations"]} theorems audited, '
             f'{len(ctx.proof["problems"])} problem(s)')
     proof_broken = list(ctx.proof['problems']) + [t['problem'] for t in ctx.translators if t.get('problem')]
